@@ -40,7 +40,7 @@ def _add(nodes, **nd):
     return len(nodes) - 1
 
 
-VARIANTS = ['twosite1d', 'twosite2d', 'twosite_lin', 'cat_axis', 'flatten_end', 'fullyconv1d', 'fullyconv2d', 'padmode1d', 'padmode2d']
+VARIANTS = ['twosite1d', 'twosite2d', 'twosite_lin', 'cat_axis', 'flatten_end', 'fullyconv1d', 'fullyconv2d', 'padmode1d', 'padmode2d', 'dupcat1d', 'dupcat2d']
 
 
 def custom_model(torch, rng, variant):
@@ -149,6 +149,33 @@ def custom_model(torch, rng, variant):
                     return s.fl(h)
                 return h.flatten(1)
         return M(), ([cin, sz, sz] if two else [cin, sz]), '%s(c=%d,cls=%d,pool=%s,act=%s,flat=%s,bn=%s)%s' % (variant, c, ncls, pool, act, flat, bn, ' avgpool' if pool in ('gap', 'avg2') else '')
+    if variant in ('dupcat1d', 'dupcat2d'):
+        # the same tensor concatenated more than once with another operand in between, followed by a searchable layer:
+        # the consumer's input mask must follow the operands in CALL order ([m_a, m_b, m_a], not grouped by operand)
+        two = variant.endswith('2d')
+        cin, sz, ca, cb = rng.randint(1, 3), rng.randint(4, 6), rng.randint(2, 4), rng.randint(2, 4)
+        order = rng.choice(['aba', 'abba', 'bab', 'aab', 'abab', 'baab'])
+        Conv = nn.Conv2d if two else nn.Conv1d
+        tail = rng.choice(['conv', 'flatten-linear'])
+
+        class M(nn.Module):
+            def __init__(s):
+                super().__init__()
+                s.p0 = nn.Identity() if two else nn.ConstantPad1d((2, 0), 0)
+                s.c0 = Conv(cin, c, 3, padding=1 if two else 0)
+                s.ca = Conv(c, ca, 1); s.cb = Conv(c, cb, 1); s.bnb = (nn.BatchNorm2d(cb) if two else nn.BatchNorm1d(cb)) if bn else nn.Identity()
+                w = sum(ca if ch == 'a' else cb for ch in order)
+                s.c1 = Conv(w, 2, 1)
+                s.fc = nn.Linear(w * (sz * sz if two else sz), 3)
+
+            def forward(s, x):
+                h = torch.relu(s.c0(s.p0(x)))
+                a, b = s.ca(h), torch.relu(s.bnb(s.cb(h)))
+                z = torch.cat([a if ch == 'a' else b for ch in order], 1)
+                if tail == 'conv':
+                    return s.c1(torch.relu(z))
+                return s.fc(torch.flatten(z, 1))
+        return M(), ([cin, sz, sz] if two else [cin, sz]), '%s(cat=%s,a=%d,b=%d,tail=%s,bn=%s)' % (variant, order, ca, cb, tail, bn)
     if variant in ('padmode1d', 'padmode2d'):
         # padding > 0 with a padding_mode other than zeros (PIT carries padding_mode through import and export)
         two = variant.endswith('2d')
